@@ -161,6 +161,31 @@ def schedule_horizon(ctx, info, rng):
     return {"schedule_horizon": {"rows": len(rows)}}
 
 
+def stale_lease_after_dequeue(ctx, fam):
+    """judged on the stores alone, on every history of this run: once a dequeue has been served at instant t, no message is still held under
+    a lease that ended at or before t - 10 ms (the lease-sweep granularity) - a lease that has run out is released by the next dequeue,
+    whether or not that dequeue needed the message to fill its batch"""
+    checked = 0
+    for h, outs in fam.kept_outs:
+        for out in outs:
+            if out.get("fatal"):
+                continue
+            for k, (op, st) in enumerate(zip(h["ops"], out["steps"])):
+                if op["op"] != "dequeue" or not st.get("has_snap") or (st["res"].get("err") or ""):
+                    continue
+                checked += 1
+                stale = [r for r in st["snap"] if r["state"] == "leased" and r["until"] < op["now"] - 10 * 10 ** 6]
+                if stale:
+                    C.report(ctx, "expired-lease-still-held-after-dequeue:%s" % out["backend"],
+                             "after a dequeue served at %d on the %s store, message %s is still leased under a lease that ended at %d (%d ns earlier): it has "
+                             "not become ready within the sweep granularity and is hidden from consumers" % (op["now"], out["backend"], stale[0]["id"], stale[0]["until"],
+                                                                                                          op["now"] - stale[0]["until"]),
+                             {"kind": "history", "backend": out["backend"], "history": {"cfg": h["cfg"], "ops": h["ops"][:k + 1], "snap_every": 1}, "failing_step": k,
+                              "observed": st["res"], "stored_after": st["snap"][:20]})
+                    break
+    return {"dequeues_checked_for_stale_leases": checked}
+
+
 def extras(ctx, info, rng, *rest):
     cov = long_poll(ctx, info, rng)
     cov.update(bulk_ready(ctx, info, rng))
@@ -169,6 +194,8 @@ def extras(ctx, info, rng, *rest):
     # another process holds the write lock when the gateway polls: the refused dequeue must not cost the gateway its store
     from lib import twostores
     cov.update(twostores.run_busy(ctx, info))
+    if rest:
+        cov.update(stale_lease_after_dequeue(ctx, rest[0]))
     return cov
 
 
